@@ -163,8 +163,40 @@ def run(ctx, proof):
                 inst = ModelInstance(number_of_players=n, game_class=comp, game_generator=gen_name, gap_function=gap,
                                      run_steps_limit=limit, seed=seed, parallel_environments=p)
                 solver = SOLVERS[sname](inst)
-                ex, ac = evaluate(solver.next_step, inst.get_env, reps, limit, inst.gap_function_callable, p, solver.after_reset)
+                captured = []
+                if p == 1:
+                    def hook(env, _solver=solver, _captured=captured):
+                        _captured.append([float(x) for x in env.full_game.get_values()])
+                        _solver.after_reset(env)
+                else:
+                    hook = solver.after_reset
+                ex, ac = evaluate(solver.next_step, inst.get_env, reps, limit, inst.gap_function_callable, p, hook)
                 results[p] = (np.array(ex), np.array(ac))
+                # independence (continuous-valued generators): two independently drawn games share no value except structural
+                # constants (integers); an exact coincidence of a non-integer double has probability ~ 0
+                if p == 1 and len(captured) == reps:
+                    owner = {}
+                    clash = None
+                    for j, vals in enumerate(captured):
+                        for x in set(vals):
+                            if float(x).is_integer():
+                                continue
+                            if x in owner and owner[x] != j:
+                                clash = (owner[x], j, x)
+                                break
+                            owner[x] = j
+                        if clash:
+                            break
+                    ctx.count("independence_checked_repetitions", reps)
+                    if clash:
+                        a_, b_, x_ = clash
+                        common_vals = sorted(set(captured[a_]) & set(captured[b_]) - {0.0})
+                        ctx.violation(f"repetitions {a_} and {b_} are evaluated on hidden games that are not independently drawn: they share "
+                                      f"{len(common_vals)} non-integer coalition values, e.g. {x_!r} (generator {gen_name}, seed {seed})",
+                                      {"generator": gen_name, "seed": seed, "reps": reps, "processes": 1, "repetitions": [a_, b_],
+                                       "hidden_game_a": captured[a_], "hidden_game_b": captured[b_], "shared_values": common_vals[:10],
+                                       "how": "ModelInstance(number_of_players=4, game_class='superadditive_cached', game_generator=..., seed=..., "
+                                              "run_steps_limit=3); evaluate(..., inst.get_env, reps, 3, gap, 1, after_reset recording env.full_game)"})
                 ctx.evaluations += 1
                 ctx.nontrivial.add((sname, gen_name, seed, reps, p))
                 ctx.count("wiring_processes", p)
